@@ -314,6 +314,7 @@ def verify_function(E: Engine, q: str) -> dict:
     c = E.spec.fns[q]
     E.verifying = q
     E.nl = c.nl
+    E.spec_default_reads = c.default_reads
     fn, mod, cls, st = entry_state(E, q, c)
     # attachment checks
     nloops = len(loops_of(fn))
